@@ -298,6 +298,14 @@ func (c *client) SendBatch(ctx context.Context, batch []hrpc.Call) (
 			}
 			return res, false
 		}
+		for i, rpc := range batch {
+			if lookupRes[i].Error != nil {
+				// the call's own context ended while its region was looked up
+				res[rpcToRes[rpc]] = lookupRes[i]
+				unretryableErrorSeen = true
+				allOK = false
+			}
+		}
 		sendBatchSplitCount.Observe(float64(len(rpcByClient)))
 
 		// Send each group of RPCs to region client to be executed.
@@ -390,8 +398,26 @@ func (c *client) findClients(ctx context.Context, batch []hrpc.Call, res []hrpc.
 	rpcByClient := make(map[hrpc.RegionClient][]hrpc.Call)
 	ok := true
 	for i, rpc := range batch {
-		rc, err := c.getRegionAndClientForRPC(ctx, rpc)
+		// Finding the region can take for ever (ZooKeeper or hbase:meta
+		// unreachable, the region being reestablished): don't let that
+		// outlast the call's own context, if it has one.
+		lookupCtx, stop := ctx, func() {}
+		if done := rpc.Context().Done(); done != nil && done != ctx.Done() {
+			var cancel context.CancelFunc
+			lookupCtx, cancel = context.WithCancel(ctx)
+			stopAfter := context.AfterFunc(rpc.Context(), cancel)
+			stop = func() { stopAfter(); cancel() }
+		}
+		rc, err := c.getRegionAndClientForRPC(lookupCtx, rpc)
+		stop()
 		if err != nil {
+			if cerr := rpc.Context().Err(); cerr != nil && ctx.Err() == nil {
+				// It's the call's own context that is done: that is
+				// this call's failure, as it would be had its context
+				// ended a little later, not one of the batch.
+				res[i].Error = cerr
+				continue
+			}
 			res[i].Error = err
 			ok = false
 			continue // see if any more RPCs are missing regions
